@@ -7,6 +7,7 @@ import (
 	"os"
 	"os/exec"
 	"path/filepath"
+	"regexp"
 	"sort"
 	"strconv"
 	"strings"
@@ -29,6 +30,10 @@ type KnownFindings struct {
 type Baseline struct {
 	Property    string            `json:"property"`
 	Obligations map[string]string `json:"obligations"` // name -> "discharged" | "known-finding"
+	// callees without contract whose effects are havoc'd on the committed tree (all obligations pass in spite of
+	// them). A failure that follows a call to an uncontracted function NOT in this list is "needs contract",
+	// not a verdict (unless it replays on the real code).
+	Uncontracted []string `json:"uncontracted,omitempty"`
 }
 
 type nameStatus struct {
@@ -39,6 +44,7 @@ type nameStatus struct {
 	Solver    string
 	Desc      string
 	Fail      *Obligation // first failing instance
+	Fails     []*Obligation
 	Unit      *UnitResult
 }
 
@@ -214,6 +220,7 @@ func cmdCheck(args []string) int {
 				}
 				continue
 			}
+			ns.Fails = append(ns.Fails, o)
 			if ns.Fail == nil || (o.Status == "sat" && ns.Fail.Status != "sat") {
 				ns.Fail = o
 				ns.Status = o.Status
@@ -252,6 +259,17 @@ func cmdCheck(args []string) int {
 		}
 	}
 
+	baseUncontracted := map[string]bool{}
+	for _, t := range base.Uncontracted {
+		baseUncontracted[t] = true
+	}
+	if !haveBase {
+		for _, o := range all {
+			for _, t := range o.Taint {
+				baseUncontracted[t] = true
+			}
+		}
+	}
 	discharged := 0
 	violations := 0
 	knownHit := 0
@@ -283,11 +301,36 @@ func cmdCheck(args []string) int {
 			continue
 		}
 		inBase := haveBase && base.Obligations[n] == "discharged"
+		// prefer a failing instance whose path does not pass through a newly uncontracted callee
+		newTaint := func(o *Obligation) []string {
+			var out []string
+			for _, t := range o.Taint {
+				if !baseUncontracted[t] {
+					out = append(out, t)
+				}
+			}
+			return out
+		}
+		if len(newTaint(ns.Fail)) > 0 {
+			for _, o := range ns.Fails {
+				if len(newTaint(o)) == 0 && (o.Status == "sat" || ns.Fail.Status != "sat") {
+					ns.Fail = o
+					ns.Status = o.Status
+					break
+				}
+			}
+		}
 		replayPath, replayed, rnote := eng.tryReplay(vd, od, prop, ns, timeout)
+		nt := newTaint(ns.Fail)
 		switch {
 		case replayed:
 			violations++
 			lines = append(lines, fmt.Sprintf("VIOLATION property=%s replay=%s", prop, replayPath))
+		case len(nt) > 0:
+			// the failing path calls a function that has no contract (and had none, or did not exist, when the
+			// baseline was taken): its effects are havoc'd, so the model may be spurious. Modular verification
+			// cannot decide this obligation until that function is given a contract.
+			undecided = append(undecided, fmt.Sprintf("obligation %s is %s after a call to %s, which has no contract: needs a contract (%s)", n, ns.Status, strings.Join(uniq(nt), ", "), rnote))
 		case inBase || !haveBase || ns.Status == "sat":
 			// an obligation that was discharged on the committed tree and now fails, or a new obligation for
 			// which a solver exhibits a model of the violation
@@ -319,12 +362,68 @@ func cmdCheck(args []string) int {
 			ev.Coverage.Bounded = append(ev.Coverage.Bounded, rec)
 		}
 	}
+	if thorough {
+		// (1) regression replays: every replay template of a function under contract for this property is run
+		// with its default input on the real code. Templates of repaired defects must pass; the template of a
+		// known finding must still fail (otherwise the finding is stale and the entry should be removed).
+		knownTmpl := map[string]bool{}
+		for _, f := range kf.Findings {
+			if f.Replay != "" {
+				knownTmpl[filepath.Base(f.Replay)] = true
+			}
+		}
+		ran := map[string]bool{}
+		for _, r := range results {
+			tmpl := filepath.Join(vd, "replay", "templates", mangle(strings.ReplaceAll(r.Key, "berty.tech/go-orbit-db/", ""))+".go.tmpl")
+			if _, err := os.Stat(tmpl); err != nil || ran[tmpl] {
+				continue
+			}
+			ran[tmpl] = true
+			failed, _, out, _ := runReplayTemplateV(*repo, tmpl, map[string]string{}, false)
+			rec := map[string]interface{}{"replay_template": filepath.Base(tmpl), "label": "bounded (one concrete run of the real code per template)"}
+			switch {
+			case failed && knownTmpl[filepath.Base(tmpl)]:
+				rec["result"] = "fails as recorded (known finding)"
+			case failed:
+				rec["result"] = "FAILS"
+				violations++
+				rp := filepath.Join(od, "replays", prop, "regression_"+mangle(filepath.Base(tmpl))+".json")
+				os.MkdirAll(filepath.Dir(rp), 0o755)
+				b, _ := json.MarshalIndent(map[string]interface{}{"property": prop, "replay_template": filepath.Base(tmpl), "test_output": out}, "", " ")
+				os.WriteFile(rp, b, 0o644)
+				lines = append(lines, fmt.Sprintf("VIOLATION property=%s replay=%s", prop, rp))
+			case knownTmpl[filepath.Base(tmpl)]:
+				rec["result"] = "passes although recorded as a known finding (stale entry?)"
+			default:
+				rec["result"] = "passes"
+			}
+			ev.Coverage.Bounded = append(ev.Coverage.Bounded, rec)
+		}
+		// (2) must-fail / must-pass corpus for this property (machinery self-test; never a property verdict)
+		if _, err := os.Stat(filepath.Join(vd, "selftest", "run.py")); err == nil && *outDir == "" {
+			cmd := exec.Command("python3", filepath.Join(vd, "selftest", "run.py"), prop, "--jobs", "4")
+			cmd.Env = append(os.Environ(), "VERIF_REPO="+*repo)
+			out, _ := cmd.CombinedOutput()
+			sum := ""
+			ls := strings.Split(strings.TrimSpace(string(out)), "\n")
+			if len(ls) > 0 {
+				sum = ls[len(ls)-1]
+			}
+			ev.Coverage.Selftest = sum
+			if strings.Contains(string(out), "WRONG") {
+				fmt.Println("SELFTEST-MISS property=" + prop + " " + sum)
+			}
+		}
+	}
 	// known findings that no longer fail are simply not printed (fixed entries suppress nothing)
 
 	// missing baseline obligations
 	if haveBase && !*rebaseline {
+		// Only obligations that come from contract clauses must persist (a vanished post / invariant / assert
+		// means part of the claim is no longer checked). Run-time safety, call-site and frame obligations
+		// are derived from the code that exists: when an expression or a call goes away, so does its obligation.
 		for n := range base.Obligations {
-			if _, ok := byName[n]; !ok {
+			if _, ok := byName[n]; !ok && contractDerived(n) {
 				undecided = append(undecided, "baseline obligation no longer generated: "+n)
 			}
 		}
@@ -387,6 +486,13 @@ func cmdCheck(args []string) int {
 			return 2
 		}
 		nb := Baseline{Property: prop, Obligations: map[string]string{}}
+		ts := map[string]bool{}
+		for _, o := range all {
+			for _, t := range o.Taint {
+				ts[t] = true
+			}
+		}
+		nb.Uncontracted = sortedKeys(ts)
 		for _, n := range names {
 			if byName[n].Status == "discharged" {
 				nb.Obligations[n] = "discharged"
@@ -412,6 +518,22 @@ func cmdCheck(args []string) int {
 		return 1
 	}
 	return 0
+}
+
+var contractDerivedRe = regexp.MustCompile(`\.(post\.\d+|inv\.\d+(\.\d+)*\.(init|step)|assert@[^:]*|lemma\.[^:]*)$`)
+
+func contractDerived(name string) bool { return contractDerivedRe.MatchString(name) }
+
+func uniq(xs []string) []string {
+	seen := map[string]bool{}
+	var out []string
+	for _, x := range xs {
+		if !seen[x] {
+			seen[x] = true
+			out = append(out, x)
+		}
+	}
+	return out
 }
 
 func shortUnit(k string) string {
@@ -446,6 +568,7 @@ type Evidence struct {
 		Bounded       []interface{}            `json:"bounded,omitempty"`
 		KnownFindings []interface{}            `json:"known_findings,omitempty"`
 		Slowest       []interface{}            `json:"slowest_obligations,omitempty"`
+		Selftest      string                   `json:"selftest_corpus,omitempty"`
 	} `json:"coverage"`
 	Assumptions []string `json:"assumptions"`
 	WallS       float64  `json:"wall_s"`
